@@ -61,9 +61,15 @@ def _build(t, v: int, keep: list):
     for i, c in enumerate(chs):
         o = _build(c, v // (2 + i), keep)
         keep.append((c, o))
-        objs.append(o)
+        # a fixed-length leaf may be handed over as the plain integer / the plain set it stands for
+        plain = c["op"] == "leaf" and (v // 7 + i) % 3 == 0
+        objs.append((next(iter(c["s"])) if len(c["s"]) == 1 else set(c["s"])) if plain else o)
     from pydsdl import BitLengthSet as B
-    return B.concatenate(objs) if op == "cat" else B.unite(objs)
+    # the operands arrive as a list, a tuple, a one-shot iterable, or led by a plain integer (the parameter is an Iterable of
+    # BitLengthSet / iterables of int / int)
+    form = (v // 4 + len(objs)) % 4
+    seq = objs if form == 0 else tuple(objs) if form == 1 else (o_ for o_ in objs) if form == 2 else iter(objs)
+    return B.concatenate(seq) if op == "cat" else B.unite(seq)
 
 def _observe(x, dmax: int, expand_first: bool):
     obs = {}
@@ -310,7 +316,8 @@ def _build_json(t):
     if op == "rng":
         return _build_json(t["c"]).repeat_range(t["k"])
     ch = [_build_json(c) for c in t["ch"]]
-    return BitLengthSet.concatenate(ch) if op == "cat" else BitLengthSet.unite(ch)
+    seq = ch if len(ch) % 2 else (c_ for c_ in ch)
+    return BitLengthSet.concatenate(seq) if op == "cat" else BitLengthSet.unite(seq)
 
 def _pads(t, acc):
     if t["op"] == "pad":
